@@ -435,8 +435,8 @@ def check_allocations(ctx, fns, rule, allocators=ALLOCATORS, extra_alloc=(), sum
             tests = param_test_summaries(P)
 
             def is_test(e, L=L, node=node):
-                if e.k in ("DeclRefExpr", "MemberExpr", "ArraySubscriptExpr") and lvalue_text(e) == L \
-                        and _is_truth_use(e):
+                if (e.k in ("DeclRefExpr", "MemberExpr", "ArraySubscriptExpr") or (e.k == "UnaryOperator" and e.op == "*")) \
+                        and lvalue_text(e) == L and _is_truth_use(e):
                     return True
                 if e.k == "CallExpr" and e.callee in tests and any(
                         ai < len(e.args()) and lvalue_text(e.args()[ai]) == L for ai in tests[e.callee]) and _result_is_acted_on(e):
